@@ -1,0 +1,202 @@
+//go:build verif
+
+// Contracts for deductive verification (see /verif/DESIGN.md).  This file is
+// compiled only with the build tag `verif` and contains comments only: it adds
+// no code to the package.  Each `//@` block is keyed by function name (and loop
+// ordinal); /verif/bin/govc reads it, generates verification conditions from
+// the go/ssa form of the real function bodies and discharges them with SMT
+// solvers.
+
+package otr3
+
+// ---------------------------------------------------------------------------
+// fragmentation.go (C14, C13)
+// ---------------------------------------------------------------------------
+
+
+//@ func (*Conversation).fragment
+//@   requires c != nil && c.version != nil
+//@   pure
+//@   ensures [C14.frag.small] (len(data) <= int(fraglen) || fraglen == 0) ==> (len(result) == 1 && result[0] === data)
+//@   ensures [C14.frag.nonempty] len(result) >= 1
+
+// ---------------------------------------------------------------------------
+// key_management.go (C02, C04, C05, C06, C08, C09, C19)
+// ---------------------------------------------------------------------------
+
+//@ func (*keyManagementContext).pickOurKeys
+//@   requires k != nil
+//@   pure
+//@   ensures [C02.pick.our,C05.retired.our,C04.window.our] (err == nil) <==> (ourKeyID != 0 && k.ourKeyID != 0 && (ourKeyID == k.ourKeyID || ourKeyID == k.ourKeyID - 1))
+//@   ensures [C02.pick.our.cur,C04.window.our.cur] (err == nil && ourKeyID == k.ourKeyID) ==> (privKey === k.ourCurrentDHKeys.priv && pubKey == k.ourCurrentDHKeys.pub)
+//@   ensures [C02.pick.our.prev,C04.window.our.prev] (err == nil && ourKeyID != k.ourKeyID) ==> (privKey === k.ourPreviousDHKeys.priv && pubKey == k.ourPreviousDHKeys.pub)
+//@   ensures [C02.pick.our.none] err != nil ==> (privKey === nil && pubKey == nil)
+
+//@ func (*keyManagementContext).pickTheirKey
+//@   requires k != nil
+//@   pure
+//@   ensures [C02.pick.their,C05.retired.their,C04.window.their] (err == nil) <==> (theirKeyID != 0 && k.theirKeyID != 0 && (theirKeyID == k.theirKeyID || (theirKeyID == k.theirKeyID - 1 && k.theirPreviousDHPubKey != nil)))
+//@   ensures [C02.pick.their.cur,C04.window.their.cur] (err == nil && theirKeyID == k.theirKeyID) ==> pubKey == k.theirCurrentDHPubKey
+//@   ensures [C02.pick.their.prev,C04.window.their.prev] (err == nil && theirKeyID != k.theirKeyID) ==> pubKey == k.theirPreviousDHPubKey
+//@   ensures [C02.pick.their.none] err != nil ==> pubKey == nil
+
+//@ define pairAt(h, i, o, t) = h.counters[i].ourKeyID == o && h.counters[i].theirKeyID == t
+//@ define chUnique(h) = forall i in 0..len(h.counters) :: forall j in 0..len(h.counters) :: i != j ==> (h.counters[i] != h.counters[j] && !(h.counters[i].ourKeyID == h.counters[j].ourKeyID && h.counters[i].theirKeyID == h.counters[j].theirKeyID))
+//@ define chNonNil(h) = forall i in 0..len(h.counters) :: h.counters[i] != nil
+
+//@ func (*counterHistory).findCounterFor
+//@   requires h != nil && chNonNil(h) && chUnique(h)
+//@   modifies h.counters, elems(h.counters)
+//@   ensures [C05.find.pair] result != nil && result.ourKeyID == ourKeyID && result.theirKeyID == theirKeyID
+//@   ensures [C05.find.existing,C19.counters.nogrowth] !fresh(result) ==> h.counters === old(h.counters)
+//@   ensures [C05.find.new] fresh(result) ==> (result.ourCounter == 0 && result.theirCounter == 0 && len(h.counters) == len(old(h.counters)) + 1 && h.counters[len(h.counters)-1] == result)
+//@   ensures [C05.find.same] forall i in 0..len(old(h.counters)) :: old(pairAt(h, i, ourKeyID, theirKeyID)) ==> result == old(h.counters[i])
+//@   ensures [C05.find.fresh] (forall i in 0..len(old(h.counters)) :: !old(pairAt(h, i, ourKeyID, theirKeyID))) ==> fresh(result)
+//@   ensures [C05.find.keep] forall i in 0..len(old(h.counters)) :: h.counters[i] == old(h.counters[i])
+//@   ensures chNonNil(h)
+//@ loop (*counterHistory).findCounterFor #0
+//@   invariant forall j in 0..rangeindex+1 :: !pairAt(h, j, ourKeyID, theirKeyID)
+
+//@ define ctrOf(m) = be64arr(m.topHalfCtr)
+
+//@ func (*keyManagementContext).checkMessageCounter
+//@   inline
+//@   requires k != nil && chNonNil(k.counterHistory) && chUnique(k.counterHistory)
+//@   modifies anything
+//@   ensures [C05.counter.exact] forall i in 0..len(old(k.counterHistory.counters)) :: old(pairAt(k.counterHistory, i, message.recipientKeyID, message.senderKeyID)) ==> ((result == nil) <==> (ctrOf(message) > old(k.counterHistory.counters[i].theirCounter)))
+//@   ensures [C05.counter.first] (forall i in 0..len(old(k.counterHistory.counters)) :: !old(pairAt(k.counterHistory, i, message.recipientKeyID, message.senderKeyID))) ==> ((result == nil) <==> (ctrOf(message) > 0))
+//@   ensures [C05.counter.stored] forall i in 0..len(old(k.counterHistory.counters)) :: (result == nil && old(pairAt(k.counterHistory, i, message.recipientKeyID, message.senderKeyID))) ==> k.counterHistory.counters[i].theirCounter == ctrOf(message)
+//@   ensures [C05.counter.stored.new] (result == nil && len(k.counterHistory.counters) != len(old(k.counterHistory.counters))) ==> (len(k.counterHistory.counters) == len(old(k.counterHistory.counters)) + 1 && pairAt(k.counterHistory, len(k.counterHistory.counters)-1, message.recipientKeyID, message.senderKeyID) && k.counterHistory.counters[len(k.counterHistory.counters)-1].theirCounter == ctrOf(message))
+//@   ensures [C05.counter.others] forall i in 0..len(old(k.counterHistory.counters)) :: (k.counterHistory.counters[i] == old(k.counterHistory.counters[i]) && k.counterHistory.counters[i].ourCounter == old(k.counterHistory.counters[i].ourCounter) && (!old(pairAt(k.counterHistory, i, message.recipientKeyID, message.senderKeyID)) ==> k.counterHistory.counters[i].theirCounter == old(k.counterHistory.counters[i].theirCounter)))
+//@   ensures [C06.counter.reject] result != nil ==> (forall i in 0..len(old(k.counterHistory.counters)) :: k.counterHistory.counters[i].theirCounter == old(k.counterHistory.counters[i].theirCounter))
+
+//@ define roomBelow(del, n) = forall a in 0..len(del) :: 0 <= del[a] && del[a] < n && del[a] + (len(del) - 1 - a) < n
+
+//@ func (*macKeyHistory).deleteKeysAt
+//@   requires h != nil && roomBelow(del, len(h.items))
+//@   modifies h.items, elems(h.items)
+//@   ensures [C09.delete.len,C19.mackeys.shrink] len(h.items) == len(old(h.items)) - len(del)
+//@   ensures sbaseSame(h.items, old(h.items))
+//@ loop (*macKeyHistory).deleteKeysAt #0
+//@   invariant -1 <= j && j < len(del)
+//@   invariant len(h.items) == len(old(h.items)) - (len(del) - 1 - j)
+//@   invariant sbaseSame(h.items, old(h.items))
+//@   invariant forall a in 0..j+1 :: 0 <= del[a] && del[a] < len(old(h.items)) && del[a] + (j - a) < len(h.items)
+//@   decreases j + 1
+
+//@ func (*macKeyHistory).forgetMACKeysForOurKey
+//@   requires h != nil
+//@   modifies h.items, elems(h.items)
+//@   ensures [C09.forget.count,C19.mackeys.shrink] len(h.items) + len(result) == len(old(h.items))
+//@   ensures nonglobal(result) && sbaseSame(h.items, old(h.items))
+//@ loop (*macKeyHistory).forgetMACKeysForOurKey #0
+//@   invariant len(ret) == len(del) && len(del) <= rangeindex + 1 && nonglobal(ret) && nonglobal(del)
+//@   invariant forall a in 0..len(del) :: 0 <= del[a] && del[a] < rangeindex + 1 && del[a] + (len(del) - 1 - a) < rangeindex + 1
+
+//@ func (*macKeyHistory).forgetMACKeysForTheirKey
+//@   requires h != nil
+//@   modifies h.items, elems(h.items)
+//@   ensures [C09.forget.count,C19.mackeys.shrink] len(h.items) + len(result) == len(old(h.items))
+//@   ensures nonglobal(result) && sbaseSame(h.items, old(h.items))
+//@ loop (*macKeyHistory).forgetMACKeysForTheirKey #0
+//@   invariant len(ret) == len(del) && len(del) <= rangeindex + 1 && nonglobal(ret) && nonglobal(del)
+//@   invariant forall a in 0..len(del) :: 0 <= del[a] && del[a] < rangeindex + 1 && del[a] + (len(del) - 1 - a) < rangeindex + 1
+
+// ---------------------------------------------------------------------------
+// events (ghost logs): the log append *is* the meaning of these helpers; their
+// contracts are assumed (the handlers they call are user code).
+// ---------------------------------------------------------------------------
+//@ ghostfield seclog BS
+//@ ghostfield msglog BS
+//@ ghostfield smplog BS
+//@ ghostfn evpush(BS, BV64) BS
+
+//@ func (*Conversation).securityEvent
+//@   opaque
+//@   requires c != nil
+//@   modifies seclog(c)
+//@   ensures seclog(c) == evpush(old(seclog(c)), uint64(e))
+//@ func (*Conversation).signalSecurityEventIf
+//@   opaque
+//@   requires c != nil
+//@   modifies seclog(c)
+//@   ensures cond ==> seclog(c) == evpush(old(seclog(c)), uint64(event))
+//@   ensures !cond ==> seclog(c) == old(seclog(c))
+//@ func (*Conversation).messageEvent
+//@   opaque
+//@   requires c != nil
+//@   modifies msglog(c)
+//@   ensures msglog(c) == evpush(old(msglog(c)), uint64(e))
+//@ func (*Conversation).messageEventWithError
+//@   opaque
+//@   requires c != nil
+//@   modifies msglog(c)
+//@   ensures msglog(c) == evpush(old(msglog(c)), uint64(e))
+//@ func (*Conversation).messageEventWithMessage
+//@   opaque
+//@   requires c != nil
+//@   modifies msglog(c)
+//@   ensures msglog(c) == evpush(old(msglog(c)), uint64(e))
+//@ func (*Conversation).smpEvent
+//@   opaque
+//@   requires c != nil
+//@   modifies smplog(c)
+//@   ensures smplog(c) == evpush(old(smplog(c)), uint64(e))
+//@ func (*Conversation).smpEventWithQuestion
+//@   opaque
+//@   requires c != nil
+//@   modifies smplog(c)
+//@   ensures smplog(c) == evpush(old(smplog(c)), uint64(e))
+
+//@ func (*Conversation).generatePotentialErrorMessage
+//@   requires c != nil
+//@   modifies c.injections.messages, elems(c.injections.messages)
+//@   ensures len(c.injections.messages) >= len(old(c.injections.messages)) && len(c.injections.messages) <= len(old(c.injections.messages)) + 1
+//@ func malformedMessage
+//@   requires c != nil
+//@   modifies msglog(c), c.injections.messages, elems(c.injections.messages)
+
+// ---------------------------------------------------------------------------
+// otrv3.go, instance_tags.go (C15, C06, C10)
+// ---------------------------------------------------------------------------
+
+//@ func (otrV3).verifyInstanceTags
+//@   requires c != nil
+//@   modifies c.theirInstanceTag, msglog(c), c.injections.messages, elems(c.injections.messages)
+//@   ensures [C15.verdict.invalid] (result == errInvalidOTRMessage) <==> ((our > 0 && our < 256) || their < 256)
+//@   ensures [C15.verdict.other] (result == errReceivedMessageForOtherInstance) <==> (!((our > 0 && our < 256) || their < 256) && ((our != 0 && c.ourInstanceTag != our) || c.theirInstanceTag != their))
+//@   ensures [C15.verdict.nil] result == nil || result == errInvalidOTRMessage || result == errReceivedMessageForOtherInstance
+//@   ensures [C15.learn.valid,C06.itag.frame] c.theirInstanceTag != old(c.theirInstanceTag) ==> (result == nil && old(c.theirInstanceTag) == 0 && c.theirInstanceTag == their && their >= 256 && (our == 0 || our == c.ourInstanceTag))
+//@   ensures [C15.accept.bound] result == nil ==> (c.theirInstanceTag == their && their >= 256 && (our == 0 || our == c.ourInstanceTag))
+
+//@ func (otrV3).parseMessageHeader
+//@   requires c != nil
+//@   modifies c.theirInstanceTag, msglog(c), c.injections.messages, elems(c.injections.messages)
+//@   ensures [C15.header.short] len(msg) < 11 ==> result2 == errInvalidOTRMessage
+//@   ensures [C15.header.parse] result2 == nil ==> (len(msg) >= 11 && result0 === msg[0:11] && result1 === msg[11:] && c.theirInstanceTag == be32(msg, 3) && be32(msg, 3) >= 256 && (be32(msg, 7) == 0 || be32(msg, 7) == c.ourInstanceTag))
+//@   ensures [C15.header.reject,C06.header.reject] result2 != nil ==> (result0 === nil && result1 === nil)
+//@   ensures [C15.learn.valid.header,C06.itag.frame.header] c.theirInstanceTag != old(c.theirInstanceTag) ==> (result2 == nil && old(c.theirInstanceTag) == 0)
+
+//@ func (otrV3).messageHeader
+//@   requires c != nil
+//@   modifies c.ourInstanceTag
+//@   ensures [C15.header.fields,C10.header.v3] result1 == nil ==> (len(result0) == 11 && be16(result0, 0) == 3 && result0[2] == msgType && be32(result0, 3) == c.ourInstanceTag && be32(result0, 7) == c.theirInstanceTag && fresh(result0))
+//@   ensures [C15.own.valid.header] result1 == nil ==> c.ourInstanceTag >= 256
+//@   ensures old(c.ourInstanceTag) != 0 ==> c.ourInstanceTag == old(c.ourInstanceTag)
+
+//@ func (otrV2).messageHeader
+//@   pure
+//@   ensures [C10.header.v2] result1 == nil && len(result0) == 3 && be16(result0, 0) == 2 && result0[2] == msgType && fresh(result0)
+
+//@ func (otrV2).parseMessageHeader
+//@   pure
+//@   ensures [C10.header.v2.parse] (result2 == nil) <==> len(msg) >= 3
+//@   ensures result2 == nil ==> (result0 === msg[0:3] && result1 === msg[3:])
+//@   ensures result2 != nil ==> (result0 === nil && result1 === nil && result2 == errInvalidOTRMessage)
+
+//@ func (*Conversation).generateInstanceTag
+//@   requires c != nil
+//@   modifies c.ourInstanceTag
+//@   ensures [C15.own.valid] result == nil ==> c.ourInstanceTag >= 256
+//@   ensures [C15.own.sticky] old(c.ourInstanceTag) != 0 ==> (c.ourInstanceTag == old(c.ourInstanceTag) && result == nil)
+//@   ensures result != nil ==> c.ourInstanceTag == old(c.ourInstanceTag)
